@@ -24,7 +24,7 @@ type relayOpts struct {
 	RichRoute  bool  // C13-style route sets
 	JoinOpaque bool  // undecodable Via entries may share a header line with decodable ones (below the first line)
 	LongLists  bool  // now and then a Record-Route list long enough that joined lines exceed the 4096-byte reader window
-	Sloppy     bool // C01: Content-Length with leading zeros; blanks after ';' and around '=' in From / To header parameters other than tag
+	Sloppy     bool  // C01: Content-Length with leading zeros; blanks after ';' and around '=' in From / To header parameters other than tag
 	Entries    []int // listen entries to use as ingress
 	NoTCP      bool
 }
